@@ -46,6 +46,12 @@ def generate(seed, tier):
         "blocks": [{"n": "ct", "stmts": [progs.simple_stmt(rng, [{"n": "x", "k": "s", "w": 3, "s": False, "_p": ["x"]}])]}]}
     prog = {"enums": [], "classes": progs.strip(classes) + [cont]}
     P = refsem.Prog(prog)
+    if rng.random() < 0.5:
+        # the container's own block carries the name of a block of the objects it holds: a toggle
+        # addressed to the container must not land on (or be answered by) the nested one
+        inner_names = [b["n"] for b in P.blocks(inner)] + [b["n"] for b in P.blocks(inner2)]
+        if inner_names:
+            cont["blocks"][0]["n"] = rng.choice(inner_names)
     orng = st.ops
     n_parties = orng.randint(2, 4)
     party_cls = [orng.choice(names + ["T0"]) for _ in range(n_parties)]
